@@ -109,8 +109,11 @@ where
             }
         };
 
+        let lhs = format!("{self:?}");
         let x = self.into();
-        let total = x + y;
+        let total = x.checked_add(y).ok_or_else(|| {
+            Error::InvalidBinaryOp("add".to_string(), lhs, "overflow".to_string())
+        })?;
         Ok(Expression::Assets(total.into()))
     }
 
@@ -120,7 +123,11 @@ where
     }
 
     fn neg(self) -> Result<Expression, Error> {
-        let negated = std::ops::Neg::neg(self.into());
+        let operand = format!("{self:?}");
+        let negated = self
+            .into()
+            .checked_neg()
+            .ok_or_else(|| Error::InvalidUnaryOp("neg".to_string(), operand))?;
         Ok(Expression::Assets(negated.into()))
     }
 }
@@ -128,7 +135,9 @@ where
 impl Arithmetic for i128 {
     fn add(self, other: Expression) -> Result<Expression, Error> {
         match other {
-            Expression::Number(y) => Ok(Expression::Number(self + y)),
+            Expression::Number(y) => self.checked_add(y).map(Expression::Number).ok_or_else(|| {
+                Error::InvalidBinaryOp("add".to_string(), format!("{self:?}"), format!("{y:?}"))
+            }),
             Expression::None => Ok(Expression::Number(self)),
             _ => Err(Error::InvalidBinaryOp(
                 "add".to_string(),
@@ -144,7 +153,9 @@ impl Arithmetic for i128 {
     }
 
     fn neg(self) -> Result<Expression, Error> {
-        Ok(Expression::Number(-self))
+        self.checked_neg()
+            .map(Expression::Number)
+            .ok_or_else(|| Error::InvalidUnaryOp("neg".to_string(), format!("{self:?}")))
     }
 }
 
@@ -261,9 +272,10 @@ impl Coerceable for Expression {
             Expression::Assets(x) => Ok(Expression::Assets(x)),
             Expression::UtxoSet(x) => {
                 let all = x
-                    .into_iter()
-                    .map(|x| x.assets)
-                    .fold(CanonicalAssets::empty(), |acc, x| acc + x);
+                    .iter()
+                    .map(|x| x.assets.clone())
+                    .try_fold(CanonicalAssets::empty(), |acc, x| acc.checked_add(x))
+                    .ok_or_else(|| Error::CannotCoerceIntoAssets(Expression::UtxoSet(x)))?;
 
                 Ok(Expression::Assets(all.into()))
             }
